@@ -48,6 +48,11 @@ func (d *PathDecoder) bodySchemaCandidates(ctx context.Context, body *hclsyntax.
 		for _, name := range attrNames {
 			attr := schema.Attributes[name]
 
+			if isExtensionAttribute(schema, name) {
+				// the extension takes precedence (as it does in hover,
+				// tokens and references) and was offered above already
+				continue
+			}
 			if !isAttributeDeclarable(body, name, attr) {
 				continue
 			}
@@ -163,4 +168,14 @@ func isBlockDeclarable(body *hclsyntax.Body, blockType string, bSchema *schema.B
 		}
 	}
 	return true
+}
+
+// isExtensionAttribute tells whether the attribute name is provided
+// by an extension enabled in the given body schema
+func isExtensionAttribute(bodySchema *schema.BodySchema, name string) bool {
+	if bodySchema.Extensions == nil {
+		return false
+	}
+	return (bodySchema.Extensions.Count && name == "count") ||
+		(bodySchema.Extensions.ForEach && name == "for_each")
 }
